@@ -10,4 +10,7 @@ SPECIFICATION SSpec
 INVARIANT Emit
 INVARIANT TypeOK
 INVARIANT NoDangling
+INVARIANT WeakSound
+INVARIANT EphSound
+INVARIANT NestSound
 CHECK_DEADLOCK FALSE
